@@ -285,10 +285,12 @@ MANIFEST = dict(
     technique="Lean 4 proof over an executable state-machine model of Rpms.add / Modules.add / ExtraFiles.add (checks in source order, "
               "then the chain of setdefault calls) + step-by-step differential correspondence with the real objects + per-call "
               "frame/content/refusal oracle on the real mapping",
-    text="Theorems (any state, any arguments, any history): C12_*_refusal (a refused call returns the identical mapping; each listed "
-         "precondition yields ValueError/TypeError), C12_*_frame (after an accepted call every lookup path that leaves the addressed "
-         "[variant][arch][key] entry reads the same value as before), C12_*_content (the entry holds exactly the documented record: "
-         "canonical N-E:V-R.A of the source package, lower-cased key; module metadata, category path, RPM list extended; extra file "
-         "appended), C12_relative (exact characterisation of _relative_to: strips root.rstrip('/')+'/' only).",
+    text="Theorems (any mapping, any arguments, any history): C12_{rpms,modules,extra}_history (after ANY history of calls a further "
+         "call is either refused - ValueError/TypeError exactly when a precondition check fails, identical mapping - or accepted, and then "
+         "the addressed [variant][arch][key] entry holds exactly the documented record and every lookup path that leaves it reads what it "
+         "read before); _refusal for every mapping (also ill-shaped loaded ones: the chain of setdefault calls cannot fail half-way); "
+         "_refuses (each listed precondition => ValueError/TypeError); _plan (canonical N-E:V-R.A of the source package / canonical UID, "
+         "lower-cased key); C12_relative (exact characterisation of _relative_to: strips root.rstrip('/')+'/' only, textual prefixes "
+         "kept); C12_dump_for_tree (one entry per stored record, base stripped, KeyError otherwise); witnesses for the two known findings.",
     note="The NEVRA / UID parsers are the generated regexes run by the engine model (tie G); str.lower() is ASCII-only in the model.",
     ref="7/C12")
